@@ -22,7 +22,7 @@ struct Meta { version: String, checksum: String }
 
 #[derive(Clone, Copy, Debug, PartialEq)] enum Strat { Keep, Update, Recreate }
 #[derive(Clone, Copy, Debug, PartialEq)] enum Mig { Recreate, Replace }
-#[derive(Clone, Copy, Debug, PartialEq)] enum Pre { Nothing, CacheRestore, LaunchOnlyRestore, Vanish, Corrupt }
+#[derive(Clone, Copy, Debug, PartialEq)] enum Pre { Nothing, CacheRestore, LaunchOnlyRestore, Vanish, Corrupt, ManyProcessDirs }
 #[derive(Clone, Copy, Debug)] struct Step { pre: Pre, strat: Strat, mig: Mig, payload: u8, types: u8 }
 
 struct TL { step: Step, src: PathBuf, log: Rc<RefCell<Vec<String>>> }
@@ -86,11 +86,11 @@ fn expected_env_tree(p: u8) -> (Tree, Tree, Tree) {
 pub fn layers(thorough: bool) -> Report {
     let depth = if thorough { 3 } else { 2 };
     let mut r = Report::new(
-        "witness search on a real tempdir: every sequence of `depth` trait-API handle_layer calls over {strategy keep/update/recreate} x {migration recreate/replace} x {three result payloads: two with env for all four scopes incl. per-process, exec.d sets, SBOM sets, metadata; one bare result without env / exec.d / SBOMs} x {two type sets}, each preceded by {nothing, cache restore, launch-only restore (directory gone, toml kept), layer vanished, metadata rewritten in an unparsable shape}: call-back log (create/update exactly when due, create handed an empty directory), on-disk layer (types, metadata, env directories byte-equal to what the real writer produces for the returned env, exec.d programs, SBOM files, files written by the call-backs), returned LayerData equal to a fresh read, sibling layer untouched; non-trivial = sequences with a restore or corrupt step",
+        "witness search on a real tempdir: every sequence of `depth` trait-API handle_layer calls over {strategy keep/update/recreate} x {migration recreate/replace} x {three result payloads: two with env for all four scopes incl. per-process, exec.d sets, SBOM sets, metadata; one bare result without env / exec.d / SBOMs} x {two type sets}, each preceded by {nothing, cache restore, launch-only restore (directory gone, toml kept), layer vanished, metadata rewritten in an unparsable shape, six non-empty and one empty process env directories added under env.launch}: call-back log (create/update exactly when due, create handed an empty directory), on-disk layer (types, metadata, env directories byte-equal to what the real writer produces for the returned env, exec.d programs, SBOM files, files written by the call-backs), returned LayerData equal to a fresh read, sibling layer untouched; non-trivial = sequences with a restore or corrupt step",
         &format!("depth {depth}"),
     );
     let mut steps = vec![];
-    for pre in [Pre::Nothing, Pre::CacheRestore, Pre::LaunchOnlyRestore, Pre::Vanish, Pre::Corrupt] { for strat in [Strat::Keep, Strat::Update, Strat::Recreate] { for mig in [Mig::Recreate, Mig::Replace] {
+    for pre in [Pre::Nothing, Pre::CacheRestore, Pre::LaunchOnlyRestore, Pre::Vanish, Pre::Corrupt, Pre::ManyProcessDirs] { for strat in [Strat::Keep, Strat::Update, Strat::Recreate] { for mig in [Mig::Recreate, Mig::Replace] {
         if pre != Pre::Corrupt && mig == Mig::Replace { continue; }
         for payload in [0u8, 1, 2] { steps.push(Step { pre, strat, mig, payload, types: if payload == 0 { 1 } else { 2 } }); }
     } } }
@@ -118,6 +118,8 @@ fn run(seq: &[Step], r: &mut Report) {
             Pre::Nothing | Pre::CacheRestore => {}
             Pre::LaunchOnlyRestore => { let _ = fs::remove_dir_all(&x); }
             Pre::Vanish => { let _ = fs::remove_dir_all(&x); let _ = fs::remove_file(layers.join("x.toml")); for f in ["cdx", "spdx", "syft"] { let _ = fs::remove_file(layers.join(format!("x.sbom.{f}.json"))); } }
+            // a restored layer whose launch environment has six process directories with one file each and a seventh, EMPTY one
+            Pre::ManyProcessDirs => { if x.is_dir() { fs::create_dir_all(x.join("env.launch/console")).unwrap(); for p in ["web", "worker", "release", "scheduler", "clock", "migrate"] { fs::create_dir_all(x.join("env.launch").join(p)).unwrap(); fs::write(x.join("env.launch").join(p).join(format!("P_{p}.override")), p).unwrap(); } } }
             Pre::Corrupt => { if x.is_dir() { fs::write(layers.join("x.toml"), "[types]\nlaunch = true\n[metadata]\nunexpected = 1\n").unwrap(); } }
         }
         let existed = x.is_dir();
@@ -166,6 +168,9 @@ fn run(seq: &[Step], r: &mut Report) {
                 if files(&after) != want_files { fail("files", "a created layer starts from an empty directory, an updated one keeps its files", format!("{want_files:?}"), format!("{:?}", files(&after))); }
             }
             _ => {
+                // an EMPTY process env directory carries no environment: whether it survives the rewrite is not part of "what was there before"
+                let noempty = |t: &Tree| -> Tree { t.iter().filter(|(k, v)| !(v.as_str() == "dir" && k.starts_with("env.launch/") && !t.keys().any(|o| o != *k && o.starts_with(k)))).map(|(k, v)| (k.clone(), v.clone())).collect() };
+                let (after, before) = (noempty(&after), noempty(&before));
                 if after != before { fail("keep", "keep leaves the layer directory (files, env, exec.d) as it was", format!("{before:?}"), format!("{after:?}")); }
                 if sboms != before_sboms { fail("keep", "keep leaves the SBOM files as they were", format!("{before_sboms:?}"), format!("{sboms:?}")); }
                 let want_meta = if outcome == "keep" { toml_before.as_ref().map(|l| l.metadata.clone()) } else { Some(Meta { version: "migrated".into(), checksum: "m".into() }) };
